@@ -9,6 +9,7 @@
 package core
 
 import (
+	"fmt"
 	"runtime"
 	stdsync "sync"
 	stdatomic "sync/atomic"
@@ -81,6 +82,9 @@ func Reset() {
 	abortCh = make(chan struct{})
 	aborted = false
 	parked.Store(0)
+	panicMu.Lock()
+	panicLog = nil
+	panicMu.Unlock()
 }
 
 // Park blocks on w until it is closed or the epoch is aborted (then Goexit).
@@ -94,4 +98,28 @@ func Park(w <-chan struct{}) {
 		parked.Add(-1)
 		runtime.Goexit()
 	}
+}
+
+// ---- panics in goroutines the harness does not own (the vendored go-statemachine reports them here instead of
+// letting them kill the worker process, so that "the node crashed" becomes an observable verdict)
+
+var (
+	panicMu  stdsync.Mutex
+	panicLog []string
+)
+
+// RecordPanic is called from a recover() in an instrumented dependency goroutine.
+func RecordPanic(where string, v any, stack []byte) {
+	panicMu.Lock()
+	defer panicMu.Unlock()
+	panicLog = append(panicLog, fmt.Sprintf("%s: %v\n%s", where, v, stack))
+}
+
+// TakePanics returns and clears the recorded panics.
+func TakePanics() []string {
+	panicMu.Lock()
+	defer panicMu.Unlock()
+	out := panicLog
+	panicLog = nil
+	return out
 }
